@@ -77,9 +77,21 @@ def corr(dom, val, x):
     return z3.If(dom[x], val[x], x)
 
 
+DICT_UNION = z3.Function("dict_union_code", I, I, I)  # `a | b` on dictionaries: some dictionary determined by the two (nothing else is known)
+
+
+def _content_binop(ex, st, op, a, b):
+    from pyvc.engine import Res
+
+    if op == "|" and isinstance(a, VRef) and isinstance(b, VRef) and a.cls == b.cls == "content":
+        return [Res("val", VRef(DICT_UNION(a.z, b.z), "content"), st)]
+    return None
+
+
 class OpEq(Spec):
     prop, file, qualname = PROP, CORE, "Operation.is_structurally_equivalent"
     calls = {".is_structurally_equivalent": Callee("region")}
+    globals = {"__binop__": _content_binop}
 
     def setup(self, st, inst):
         me = st.declare_input("self", z3.Int("self"))
@@ -89,7 +101,11 @@ class OpEq(Spec):
         self.s = {k: seq(k) for k in ("a_operands", "b_operands", "a_results", "b_results", "a_succ", "b_succ")}
         self.ra = [z3.Int(f"a_region{i}") for i in range(na)]
         self.rb = [z3.Int(f"b_region{i}") for i in range(nb)]
-        self.flags = {k: st.declare_input(k, z3.Bool(k)) for k in ("same_name", "same_attributes", "same_properties")}
+        # dictionaries are content codes (equal codes <=> equal dictionaries); the comparisons themselves are executed, not bound
+        self.codes = {k: st.declare_input(k, z3.Int(k)) for k in ("a_attributes", "b_attributes", "a_properties", "b_properties")}
+        self.flags = {"same_name": st.declare_input("same_name", z3.Bool("same_name")),
+                      "same_attributes": self.codes["a_attributes"] == self.codes["b_attributes"],
+                      "same_properties": self.codes["a_properties"] == self.codes["b_properties"]}
         return {"self": VRef(me, "Operation"), "other": VRef(ot, "Operation"), "context": VRef(c, "dict", ("dict", "ref", "ref")),
                 "_c": c, "_me": me, "_ot": ot}
 
@@ -107,8 +123,8 @@ class OpEq(Spec):
             "self.results": s["a_results"], "other.results": s["b_results"],
             "self.successors": s["a_succ"], "other.successors": s["b_succ"],
             "self.regions": VTuple([VRef(r, "Region") for r in self.ra]), "other.regions": VTuple([VRef(r, "Region") for r in self.rb]),
-            "self.attributes != other.attributes": VBool(z3.Not(f["same_attributes"])),
-            "self.properties != other.properties": VBool(z3.Not(f["same_properties"])),
+            "self.attributes": VRef(self.codes["a_attributes"], "content"), "other.attributes": VRef(self.codes["b_attributes"], "content"),
+            "self.properties": VRef(self.codes["a_properties"], "content"), "other.properties": VRef(self.codes["b_properties"], "content"),
             "self.result_types != other.result_types": VBool(z3.Not(self.same_result_types())),
         }
 
